@@ -28,8 +28,9 @@ type Case struct {
 
 func Spec() *mon.Spec {
 	return &mon.Spec{
-		ID:    "C12",
-		Level: "fault_enumeration",
+		ID:      "C12",
+		RuleAdd: "Later additions (rounds 4-17): constructor variants; extension at the front (junk, the request itself) and by whole frames at the back; a second exchange after a good one; serial ports with Flush; a call without any error is a violation; a damaged reply cut off by the client's own receive buffer is not a consistent prefix.",
+		Level:   "fault_enumeration",
 		Rule: "RTU-over-network client and serial client; for each of the 10 reply shapes (3 sizes) and exception replies the reference-encoded reply is corrupted before delivery: every single-bit flip, every single-byte substitution (all 255 values for replies <= 24 bytes, PRNG positions/values otherwise), PRNG double/triple corruptions incl. swapped CRC bytes and CRC of a different message, every truncation, extension by 1..4 bytes. Precondition checked per case: the last two bytes differ from the reference CRC of the rest. Each corrupted reply is delivered whole, cut at 5 bytes (the length the early exception shortcut inspects) and at a PRNG cut. " +
 			"Oracle: Do returns a nil response and an error in which errors.As finds neither *ErrorResponseRTU nor *ErrorResponseTCP. distinct key=(client, fc, corruption kind, position, value class, boundary).",
 		Assumptions: []string{"serial client cases are sampled more thinly in quick (30 ms sleep per call)"},
